@@ -68,6 +68,10 @@ def run(R):
         r7(R)
     if R.want("C01.R8"):
         r8(R)
+    if R.want("C01.R9"):
+        r9(R)
+    if R.want("C01.R10"):
+        r10(R)
 
 
 # --------------------------------------------------------------------------------------------------
@@ -596,6 +600,49 @@ def r8(R):
     R.floor("C01.R8", 1)
 
 
+def r9(R):
+    """refinegrains keeps the lab coordinates of each grain's peaks (grain.peaks_xyz) and recomputes them inside gof() only when
+    fit() decided that a varied parameter can move them.  That decision has to agree with what compute_xyz_lab depends on (its own
+    parameter list): a detector parameter the decision forgets leaves stale xl, yl, zl next to g-vectors computed with the current
+    values, and the routes disagree."""
+    R.rule("C01.R9", "refinegrains.fit: the lab coordinates are recomputed whenever a varied parameter is one that transform.compute_xyz_lab "
+                     "takes (the 'recompute' test covers every name in its signature)")
+    mt = pyfacts.module(R, TR)
+    sig = [a.arg for a in mt.func("compute_xyz_lab").args.args[1:]]
+    R.shape(len(sig) >= 10, "C01.R9", TR, "compute_xyz_lab", "the detector parameters in the signature")
+    mr = pyfacts.module(R, RG)
+    fn = mr.func("refinegrains.fit")
+    sets = [a for a in ast.walk(fn) if isinstance(a, ast.Assign) and src(a.targets[0]) == "self.recompute_xlylzl" and isinstance(a.value, ast.Constant) and a.value.value is True]
+    R.shape(len(sets) >= 1, "C01.R9", RG, "refinegrains.fit", "the statement self.recompute_xlylzl = True")
+    cfg = pyfacts.PyCFG(fn)
+    n = 0
+    for a in sets:
+        gs = cfg.guards(cfg.node_of(a))
+        tests = [(t, pol) for t, pol in gs if isinstance(t, ast.Compare) and len(t.ops) == 1 and isinstance(t.ops[0], (ast.In, ast.NotIn))]
+        if not tests:
+            n += 1
+            R.inst("C01.R9", "%s:refinegrains.fit recompute set unconditionally" % RG)
+            continue
+        t, pol = tests[-1]
+        lst = pyfacts.resolved(fn, t.comparators[0], 3, keep=("self",))
+        R.shape(isinstance(lst, (ast.List, ast.Tuple, ast.Set)) and all(isinstance(e, ast.Constant) for e in lst.elts), "C01.R9", RG, "refinegrains.fit",
+                "the list of names in '%s'" % src(t)[:60])
+        names = set(e.value for e in lst.elts)
+        is_in = isinstance(t.ops[0], ast.In) == pol          # True: recompute when the name IS in the list
+        n += 1
+        if is_in:
+            missing = [p_ for p_ in sig if p_ not in names]
+            R.check(not missing, "C01.R9", RG, a.lineno, "refinegrains.fit", "recompute when the varied name is in %s" % sorted(names),
+                    "%s are parameters of compute_xyz_lab but not in the list: when only such a parameter is varied gof() keeps the xl, yl, zl "
+                    "computed with its starting value while everything else uses the current one - the fit cannot see the parameter and the "
+                    "g-vectors differ from the reference / compiled route" % missing)
+        else:
+            wrong = [p_ for p_ in sig if p_ in names]
+            R.check(not wrong, "C01.R9", RG, a.lineno, "refinegrains.fit", "recompute unless the varied name is in %s" % sorted(names),
+                    "%s are parameters of compute_xyz_lab but are exempted from the recomputation" % wrong)
+    R.floor("C01.R9", 1)
+
+
 def rg_compute_gv(R, rule):
     """refinegrains.compute_gv (shared with C09): omega * sign at every use; wavelength, wedge, chi reach every transform call"""
     mr = pyfacts.module(R, RG)
@@ -616,3 +663,107 @@ def rg_compute_gv(R, rule):
             if nm in ("compute_tth_eta_from_xyz", "compute_g_vectors"):
                 R.check("om * sign" in txt or "sign * om" in txt or "omega_calc" in txt, rule, RG, c.lineno, "refinegrains.compute_gv", "%s uses om*sign (or the fitted omega)" % nm,
                         "the omega sign is dropped on this call")
+
+
+# --------------------------------------------------------------------------------------------------
+def r10(R):
+    """The numba chain compute_gve(sc, fc, omega, ...) has no omegasign argument: like the reference chain below compute_tth_eta /
+    compute_g_vectors it takes the SIGNED rotation angle.  The compiled route of the same file (get_local_gv -> cImageD11.compute_gv)
+    receives the parameter 'omegasign' and signs the angle itself, and so does columnfile.updateGeometry.  So every caller of
+    compute_gve has to hand over omega * omegasign; a caller that no omegasign can reach gives, for omegasign = -1, g-vectors that
+    differ from those of the compiled and the reference route for the same peaks."""
+    R.rule("C01.R10", "point_by_point.py: every call of the numba compute_gve receives the omega column multiplied by the 'omegasign' parameter "
+                      "(or signed by its caller), as the compiled route get_local_gv -> cImageD11.compute_gv applies it")
+    m = pyfacts.module(R, PBP)
+    gve = m.func("compute_gve")
+    formals = [a.arg for a in gve.args.args]
+    R.shape("omega" in formals, "C01.R10", PBP, "compute_gve", "the formal 'omega'")
+    if any("sign" in a for a in formals):
+        R.shape(False, "C01.R10", PBP, "compute_gve", "a compute_gve without a sign argument (it now takes one: the rule has to compare its use with the reference)")
+    opos = formals.index("omega")
+
+    def has_sign_const(e):
+        return any(isinstance(x, ast.Constant) and x.value == "omegasign" for x in ast.walk(e))
+
+    def funcs():
+        for n_ in ast.walk(m.tree):
+            if isinstance(n_, ast.FunctionDef):
+                yield n_
+
+    def calls_in(fn, name):
+        out = []
+        for x in ast.walk(fn):
+            if isinstance(x, ast.Call) and ((isinstance(x.func, ast.Name) and x.func.id == name) or (isinstance(x.func, ast.Attribute) and x.func.attr == name)):
+                out.append(x)
+        return out
+
+    def arg_of(call, pos, name):
+        for kw in call.keywords:
+            if kw.arg == name:
+                return kw.value
+        if pos < len(call.args) and not any(isinstance(a, ast.Starred) for a in call.args[:pos + 1]):
+            return call.args[pos]
+        return None
+
+    def signed_formals(F):
+        """formals of F that receive, at every call site in the module, an expression built from the parameter 'omegasign'"""
+        fa = [a.arg for a in F.args.args] + [a.arg for a in F.args.kwonlyargs]
+        sites = [(G, c) for G in funcs() if G is not F for c in calls_in(G, F.name)]
+        out = set()
+        for i, a in enumerate(fa):
+            if not sites:
+                break
+            good = True
+            for G, c in sites:
+                v = arg_of(c, i, a)
+                if v is None or not has_sign_const(pyfacts.resolved(G, v, 4)):
+                    good = False
+            if good:
+                out.add(a)
+        return out, sites
+
+    def names_of(e):
+        return set(y.id for y in ast.walk(e) if isinstance(y, ast.Name))
+
+    for F in funcs():
+        if F.name == "compute_gve":
+            continue
+        calls = [c for c in calls_in(F, "compute_gve") if m.enclosing_function(c) is F]
+        if not calls:
+            continue
+        sf, sites = signed_formals(F)
+        for c in calls:
+            v = arg_of(c, opos, "omega")
+            R.shape(v is not None, "C01.R10", PBP, F.name, "the omega argument of the compute_gve call at line %d" % c.lineno)
+            rv = pyfacts.resolved(F, v, 4, keep=tuple(sf))
+            signed = has_sign_const(rv) or any(isinstance(x, ast.BinOp) and isinstance(x.op, ast.Mult) and
+                                               ((names_of(x.left) | names_of(x.right)) & sf) for x in ast.walk(rv))
+            # can a sign reach the argument at all?  closure of the names it is computed from, over every assignment of F
+            clo, rhs_seen, grew = set(names_of(v)), [], True
+            while grew:
+                grew = False
+                for st in ast.walk(F):
+                    if isinstance(st, (ast.Assign, ast.AugAssign, ast.AnnAssign)) and getattr(st, "value", None) is not None:
+                        tg = st.targets if isinstance(st, ast.Assign) else [st.target]
+                        tn = set()
+                        for t_ in tg:
+                            tn |= names_of(t_)
+                        if tn & clo and st not in rhs_seen:
+                            rhs_seen.append(st)
+                            new_names = names_of(st.value) - clo
+                            if new_names:
+                                clo |= new_names
+                            grew = True
+            reach = bool(clo & sf) or any(has_sign_const(st.value) for st in rhs_seen) or has_sign_const(v)
+            desc = "%s: compute_gve(omega=%s)" % (F.name, src(v))
+            if signed:
+                R.inst("C01.R10", desc + " signed (%s)" % src(rv)[:80])
+            elif not reach:
+                R.check(False, "C01.R10", PBP, c.lineno, F.name, "compute_gve(omega=%s)" % src(v),
+                            "no 'omegasign' reaches this argument in %s (it is computed from %s; formals fed from the parameters' omegasign at the call "
+                            "site%s: %s): the numba route computes g-vectors from the unsigned omega column while get_local_gv hands omegasign to "
+                            "cImageD11.compute_gv - for omegasign = -1 the refinement stage and the indexing stage disagree about every g-vector"
+                            % (F.name, ", ".join(sorted(clo & set(a.arg for a in F.args.args))) or "no formal", "s" if len(sites) != 1 else "", sorted(sf) or "none"))
+            else:
+                R.shape(False, "C01.R10", PBP, F.name, "how omegasign reaches the omega argument '%s' of compute_gve (line %d)" % (src(v), c.lineno))
+    R.floor("C01.R10", 2)
